@@ -128,19 +128,29 @@ def run(ctx):
     # ---- through the directory loader
     scratch = os.path.join(core.SCRATCH, "openpose-%d" % os.getpid())
     try:
-        for _ in range(ctx.pick(3, 20)):
+        for _ in range(ctx.pick(6, 30)):
             shutil.rmtree(scratch, ignore_errors=True); os.makedirs(scratch)
             frames = gen_frames(rng, comps)
+            directed = _ % 3                                         # 0: the last frame has no people; 1: no frame has any; 2: as drawn
+            if directed == 0 and len(frames) >= 2:
+                frames[max(frames)] = {"people": []}
+            elif directed == 1:
+                frames = {k: {"people": []} for k in frames}
             prefix = rng.choice(["video_", "", "clip2_"])
             for fid, fr in frames.items():
                 with open(os.path.join(scratch, "%s%012d_keypoints.json" % (prefix, fid)), "w") as f:
                     json.dump(fr, f)
             fps, w, h, dp = rng.choice([25, 29.97, 12.5, 0.4, 59.94]), rng.choice([100, 640, 1]), rng.choice([200, 480]), rng.choice([0, 0, 7])
-            nf = rng.choice([None, None, max(frames) + 1, max(frames) + 4])
+            nf = rng.choice([None, None, max(frames) + 1, max(frames) + 4]) if directed == 2 else None
             kw = dict(fps=fps, width=w, height=h, depth=dp, **({} if nf is None else {"num_frames": nf}))
-            a = load_openpose_directory(scratch, **kw)
             b = load_openpose(frames, **kw)
             ctx.evaluated(("dir", json.dumps(frames), json.dumps(kw))); ctx.count("directory")
+            try:
+                a = load_openpose_directory(scratch, **kw)
+            except Exception as e:
+                ctx.violation("the directory loader raises on files whose frame dictionary load_openpose loads", {"prefix": prefix, "ids": sorted(frames), "arguments": kw,
+                              "people_per_frame": {k: len(v["people"]) for k, v in frames.items()}}, {"error": type(e).__name__ + ": " + str(e)[:100]}, True, signature={"clause": "directory-raises"})
+                continue
             if not (np.array_equal(np.asarray(a.body.data.data), np.asarray(b.body.data.data)) and np.array_equal(a.body.confidence, b.body.confidence)
                     and np.array_equal(np.ma.getmaskarray(a.body.data), np.ma.getmaskarray(b.body.data))):
                 ctx.violation("the directory loader places frames differently from their file names", {"prefix": prefix, "ids": sorted(frames), "arguments": kw}, {}, True, signature={"clause": "directory"})
